@@ -18,6 +18,7 @@ mod c16;
 mod c17;
 mod c18;
 mod c19;
+mod c20;
 mod codes;
 mod decoders;
 mod sha256;
@@ -60,6 +61,7 @@ fn main() {
         ("gen", "C08") => c08::generate(&a),
         ("gen", "C09") => c02::generate_c09(&a),
         ("gen", "C11") => c11::generate(&a),
+        ("gen", "C20") => c20::generate(&a),
         ("gen", "C19") => c19::generate(&a),
         ("capichild", "C19") => c19::child(&a),
         ("gen", "C18") => c18::generate(&a),
